@@ -233,6 +233,21 @@ pub fn run_c04(a: &Args) {
                     } }
                     off += w;
                 }
+                // text fields holding names: letters whose upper- / lower-case form has a different UTF-8 length (Kelvin / Angstrom / Ohm signs,
+                // dotted and dotless i, sharp s - all present in LFS's codepages), alone and next to the file-name endings LFS uses
+                if rep == 0 || a.thorough() {
+                    const ODD: [&[u8]; 9] = [b"", b"^J\x81\xf0", b"^T\xdd", b"^T\xfd", b"^K\xa7\xd9", b"^K\xa1\xca", b"\xdf", b"\xff", b"^E\xa5"];
+                    const END: [&[u8]; 10] = [b"", b".spr", b".mpr", b".SPR", b".Mpr", b".lyt", b".set", b".pth", b".smx", b".txt"];
+                    let mut slots: Vec<(usize, usize)> = vec![]; let mut off = 2;
+                    for (_, at) in k.fixed { if let Atom::Text { n, raw: false, .. } = at { if off + n <= f.len() { slots.push((off, *n)); } } off += width(at); }
+                    if let Tail::TextEof { .. } = k.tail { if f.len() > off { slots.push((off, f.len() - off)); } }
+                    for (o, n) in slots { for odd in ODD { for end in END { for shape in 0..4 {
+                        let mut t: Vec<u8> = vec![];
+                        match shape { 0 => { t.extend_from_slice(odd); t.extend_from_slice(end); }, 1 => { t.push(b'x'); t.extend_from_slice(odd); t.extend_from_slice(end); }, 2 => { t.extend_from_slice(odd); t.push(b'x'); t.extend_from_slice(end); }, _ => { t.extend_from_slice(b"dir/"); t.extend_from_slice(odd); t.extend_from_slice(odd); t.extend_from_slice(end); } }
+                        if t.is_empty() || t.len() > n { continue; }
+                        let mut g = f.clone(); for x in g[o..o + n].iter_mut() { *x = 0; } g[o..o + t.len()].copy_from_slice(&t); one(g, &mut st, &mut out, shape == 1);
+                    } } } }
+                }
                 // text fields: a codepage marker followed by every string of up to 3 class bytes (lead bytes of the double-byte codepages,
                 // ASCII digits, caret, letter, 0x80 / 0xFF), ending exactly at the end of the field and ending at a NUL: the decoder's
                 // left-to-right scan must never look past the text
@@ -324,6 +339,27 @@ pub fn typed_api_checks(prop: &str, a: &Args, st: &mut Stats) {
             }
         }
     } } }
+    // the two `char` fields (ISI Prefix, SCH CharB) are one byte on the wire: a character that does not fit is either refused or costs exactly
+    // its one byte - the frame stays one well-formed frame of the fixed size and no neighbouring field moves or changes
+    for c in ['!', '\u{7f}', '\u{e9}', '\u{ff}', '\u{100}', '\u{141}', '\u{20ac}', '\u{ff01}', '\u{1f600}'] {
+        use insim::insim::{Isi, IsiFlags, Sch, SchFlags};
+        let isi = Isi { reqi: RequestId(7), udpport: 0x1234, flags: IsiFlags::LOCAL | IsiFlags::MCI, version: 9, prefix: c, interval: std::time::Duration::from_millis(500), admin: "adm".into(), iname: "name".into() };
+        let sch = Sch { reqi: RequestId(7), charb: c, flags: SchFlags::SHIFT };
+        for (name, p, ty, len, off) in [("IS_ISI Prefix", Packet::Isi(isi.clone()), 1u8, 44usize, 9usize), ("IS_SCH CharB", Packet::Sch(sch.clone()), 6, 8, 4)] { for compressed in [true, false] {
+            st.evaluations += 1;
+            let id = format!("charfield {} {} {:x}", mode_tag(compressed), ty, c as u32);
+            let base = match encode_p(compressed, &match &p { Packet::Isi(i) => Packet::Isi(Isi { prefix: 'A', ..i.clone() }), Packet::Sch(s) => Packet::Sch(Sch { charb: 'A', ..s.clone() }), o => o.clone() }) { Enc::Ok(b) => b, _ => { st.fail(format!("[{prop}] {name} = 'A' is not encoded"), id.clone()); continue; } };
+            match encode_p(compressed, &p) {
+                Enc::Ok(b) => {
+                    if let Some(w) = wellformed(compressed, &b, ty) { st.fail(format!("[{prop}] {name} = U+{:04X}: {w}", c as u32), id.clone()); }
+                    else if b.len() != len || b[..off] != base[..off] || b[off + 1..] != base[off + 1..] { st.fail(format!("[{prop}] {name} = U+{:04X} disturbs its neighbours: frame {} but with 'A' {}", c as u32, hex(&b), hex(&base)), id.clone()); }
+                    else if (c as u32) < 256 && b[off] != c as u32 as u8 { st.fail(format!("[{prop}] {name} = U+{:04X} is written as byte {:#04x}", c as u32, b[off]), id.clone()); }
+                },
+                Enc::Err => if (c as u32) < 256 { st.fail(format!("[{prop}] {name} = U+{:04X} (representable in the byte) is refused", c as u32), id.clone()); },
+                Enc::Panic => st.fail(format!("[{prop}] {name} = U+{:04X} makes the encoder panic", c as u32), id.clone()),
+            }
+        } }
+    }
     // IS_MSO built by hand with a player-name prefix (textstart > 0) whose encoded length differs from its UTF-8 length: the message field
     // is the encoded message NUL-padded to a multiple of 4 and cut at 128 bytes, TextStart is the ENCODED length of the name
     {
